@@ -291,7 +291,7 @@ func genBody(rng *h.Rng, cfg envCfg, nmsgs int, malformed bool, small bool) (bod
 	if !malformed {
 		return
 	}
-	switch k := rng.Intn(9); k {
+	switch k := rng.Intn(11); k {
 	case 0:
 		what = "truncated"
 		if len(body) > 0 {
@@ -338,6 +338,18 @@ func genBody(rng *h.Rng, cfg envCfg, nmsgs int, malformed bool, small bool) (bod
 			p := genPayload(rng, 3)
 			body = append(body, h.Frame(0, p)...)
 			msgs = append(msgs, p)
+		}
+	case 9, 10:
+		what = "zero-length frame with special flags"
+		fl := []byte{0x02, 0x03, 0x80, 0x81, 0x04, 0x40, 0x82, 0xff, 0x08, 0x10}[rng.Intn(10)]
+		fr := h.Frame(fl, nil)
+		// an empty payload is an empty (valid) MIME header block, but not a JSON object
+		parseOK = cfg.Proto == "grpcweb"
+		if k == 9 || len(msgs) == 0 {
+			// in place of the first message
+			body = append(append([]byte(nil), fr...), body...)
+		} else {
+			body = append(body, fr...)
 		}
 	case 7:
 		what = "huge declared length"
